@@ -63,6 +63,80 @@ def _shape_of_field(att, core, cls, name, spec):
     raise TranslateError(f'{cls.__name__}.{name}: unrecognised field spec {spec!r}')
 
 
+GUARD_DECORATOR = '_att_request_handler'
+
+
+def _is_request_guard(dec, tree) -> bool:
+    """@_att_request_handler: a module-level decorator that runs the handler in a task (run_in_task) and
+    answers any escaping exception with an Error Response (except Exception -> send_response UNLIKELY_ERROR)"""
+    if not (isinstance(dec, ast.Name) and dec.id == GUARD_DECORATOR):
+        return False
+    fn = next((n for n in tree.body if isinstance(n, ast.FunctionDef) and n.name == GUARD_DECORATOR), None)
+    if fn is None:
+        raise TranslateError(f'{GUARD_DECORATOR} is used but not defined at module level')
+    inner = [n for n in ast.walk(fn) if isinstance(n, ast.AsyncFunctionDef)]
+    if len(inner) != 1:
+        raise TranslateError(f'{GUARD_DECORATOR}: expected exactly one inner coroutine')
+    tries = [n for n in inner[0].body if isinstance(n, ast.Try)]
+    if len(tries) != 1 or len(inner[0].body) != 1:
+        raise TranslateError(f'{GUARD_DECORATOR}: the inner coroutine must consist of one try statement')
+    t = tries[0]
+    body_txt = ast.unparse(t.body)
+    if 'await handler(self, bearer, request)' not in body_txt or len(t.body) != 1:
+        raise TranslateError(f'{GUARD_DECORATOR}: try body is not the awaited handler')
+    exc = [h for h in t.handlers if isinstance(h.type, ast.Name) and h.type.id == 'Exception']
+    if len(exc) != 1:
+        raise TranslateError(f'{GUARD_DECORATOR}: no `except Exception` clause')
+    txt = ast.unparse(exc[0])
+    if ('self.send_response(bearer, response)' not in txt or 'ATT_UNLIKELY_ERROR_ERROR' not in txt
+            or 'request_opcode_in_error=request.op_code' not in txt or 'raise' in txt):
+        raise TranslateError(f'{GUARD_DECORATOR}: `except Exception` does not answer with UNLIKELY_ERROR')
+    if t.finalbody or t.orelse:
+        raise TranslateError(f'{GUARD_DECORATOR}: unexpected else/finally')
+    ret = ast.unparse(fn.body[-1])
+    if 'run_in_task()' not in ret or 'guarded' not in ret:
+        raise TranslateError(f'{GUARD_DECORATOR}: does not return run_in_task()(guarded)')
+    return True
+
+
+def _catches_any(handler: ast.ExceptHandler) -> bool:
+    t = handler.type
+    if t is None:
+        return True
+    names = [e.id if isinstance(e, ast.Name) else getattr(e, 'attr', '')
+             for e in (t.elts if isinstance(t, ast.Tuple) else [t])]
+    return any(n in ('Exception', 'BaseException') for n in names)
+
+
+def _value_calls_guarded_any(fn) -> bool:
+    """every awaited read_value / write_value is inside a try with `except Exception` that does not re-raise"""
+    ok = True
+
+    def visit(node, guarded):
+        nonlocal ok
+        if isinstance(node, ast.Try):
+            g = guarded or any(_catches_any(h) and not any(isinstance(x, ast.Raise) for x in ast.walk(h))
+                               for h in node.handlers)
+            for n in node.body:
+                visit(n, g)
+            for h in node.handlers:
+                for n in h.body:
+                    visit(n, guarded)
+            for n in node.orelse + node.finalbody:
+                visit(n, guarded)
+            return
+        if isinstance(node, ast.Await) and isinstance(node.value, ast.Call):
+            f = node.value.func
+            if isinstance(f, ast.Attribute) and f.attr in ('read_value', 'write_value') and not guarded:
+                ok = False
+        for child in ast.iter_child_nodes(node):
+            visit(child, guarded)
+
+    for n in fn.body:
+        visit(n, False)
+    return ok
+
+
 def _is_run_in_task(dec) -> bool:
     # utils.AsyncRunner.run_in_task()   (no queue argument: one task per call)
     if not isinstance(dec, ast.Call) or dec.args or dec.keywords:
@@ -144,6 +218,7 @@ def extract(repo: str) -> dict:
     # ---- handlers: what on_gatt_pdu's getattr(self, f'on_{att_pdu.name.lower()}') finds
     handlers = []
     guarded = []
+    exc_guarded = []
     for op in range(256):
         cls = att.ATT_PDU.pdu_classes.get(op)
         name = cls.name if cls is not None else att.Opcode(op).name
@@ -156,16 +231,29 @@ def extract(repo: str) -> dict:
             raise TranslateError(f'Server.{hname} exists but is not defined in class Server (inherited / injected?)')
         if isinstance(node, ast.FunctionDef) and not node.decorator_list:
             kind = False
+            any_guard = True        # Server.on_gatt_pdu maps any exception of a plain handler
         elif (isinstance(node, ast.AsyncFunctionDef) and len(node.decorator_list) == 1
               and _is_run_in_task(node.decorator_list[0])):
             kind = True
+            any_guard = _value_calls_guarded_any(node)
+        elif (isinstance(node, ast.AsyncFunctionDef) and len(node.decorator_list) == 1
+              and _is_request_guard(node.decorator_list[0], tree)):
+            kind = True
+            any_guard = True
         else:
             raise TranslateError(f'Server.{hname}: unrecognised definition form (decorators / async)')
         handlers.append((op, kind))
         n, ok = _value_calls_guarded(node)
         guarded.append((op, n, ok))
+        # a request must be ANSWERED when an unexpected exception escapes: only the decorator does that;
+        # a command may swallow it
+        if kind and op in [int(x) for x in att.ATT_REQUESTS]:
+            any_guard = (len(node.decorator_list) == 1 and isinstance(node.decorator_list[0], ast.Name)
+                         and node.decorator_list[0].id == GUARD_DECORATOR)
+        exc_guarded.append((op, any_guard))
     out['handlers'] = handlers
     out['guarded'] = guarded
+    out['exc_guarded'] = exc_guarded
 
     # ---- generic dispatch: the `else` branch of on_gatt_pdu tests `att_pdu.op_code in att.ATT_REQUESTS`
     og = methods.get('on_gatt_pdu')
@@ -251,6 +339,11 @@ def render(t: dict) -> str:
         '   catches att.ATT_Error) *)',
         'Definition g_guarded : list (Z * Z * bool) := ['
         + '; '.join(f'({o}, {n}, {_b(k)})' for o, n, k in t['guarded']) + '].',
+        '(* (opcode, an exception other than ATT_Error escaping the handler is answered with an Error',
+        '   Response -- plain handlers via on_gatt_pdu, task-wrapped request handlers via the',
+        '   _att_request_handler decorator -- or, for a command, swallowed) *)',
+        'Definition g_exc_guarded : list (Z * bool) := ['
+        + '; '.join(f'({o}, {_b(k)})' for o, k in t['exc_guarded']) + '].',
         f'Definition g_has_generic_request_handler : bool := {_b(t["has_generic_request_handler"])}.',
         f'Definition g_has_invalid_pdu_handler : bool := {_b(t["has_invalid_pdu_handler"])}.',
         '',
